@@ -66,6 +66,7 @@ type Case struct {
 	Long    bool    `json:"long,omitempty"` // callee-first order, form-by-form modes: 100 evaluations of the same object
 	Hist    []Step  `json:"hist,omitempty"`
 	Tree    *RNode  `json:"tree,omitempty"` // kind reeval: the form tree
+	Qual    bool    `json:"qual,omitempty"` // a third of the calls of ordinary functions are written package qualified (cl:+, cl-user:f)
 }
 
 type sig struct {
